@@ -181,3 +181,6 @@ Definition is_failed (o : op) : bool := match o with CreateFail _ _ | RevokeFail
 (* the token an operation can affect *)
 Definition target (o : op) : option token :=
   match o with Create _ t | Revoke _ t | Race t => Some t | _ => None end.
+
+(* authentications (either transport) *)
+Definition is_auth (o : op) : bool := match o with AuthHttp _ | AuthWs _ => true | _ => false end.
